@@ -593,6 +593,53 @@ def run(ctx):
                           {'pipeline': name, 'function': fq, 'bound': k, 'lag': worst[0], 'at_output_row': worst[1]})
     ctx.extra['pull_shape_tie'] = {'operators_tied': tied, 'functions_with_bound': sum(1 for v in shapes.values() if v is not None), 'functions': len(shapes)}
 
+    # pass-through views with a batch size: consuming more rows than one batch must not make them measure the whole source
+    for name, mk in (('progress', lambda s: etl.progress(s, 1000, out=open(os.devnull, 'w'))), ('progress(batch=10)', lambda s: etl.progress(s, 10, out=open(os.devnull, 'w'))),
+                     ('log_progress', lambda s: etl.log_progress(s, 1000, logger=__import__('logging').getLogger('petl_c02_null'))),
+                     ('clock', lambda s: etl.clock(s)), ('progress(wrap)', lambda s: etl.progress(etl.wrap(s), 1000, out=open(os.devnull, 'w'))),
+                     ('progress(cut)', lambda s: etl.progress(etl.cut(s, 'a', 'b'), 1000, out=open(os.devnull, 'w')))):
+        for k in (1001, 2050):
+            res = []
+            for n in (3000, 9000):
+                a = TableSrc(n, 5)
+                out = consume(etl, mk(a), 'islice', k)
+                res.append((out, a.pulls, a.opens))
+            ctx.case((name, 'beyond-a-batch', k))
+            ctx.count('kind:beyond-a-batch')
+            if res[0] != res[1] or res[1][1] > k + 1 or res[1][2] > 1:
+                ctx.spec_fail('%s|pulls-depend-on-length' % name.split('(')[0], '%s: %d rows requested, (pulls, passes) = %r for 3000 rows and %r for 9000 rows'
+                              % (name, k, res[0][1:], res[1][1:]), {'pipeline': name, 'k': k})
+    # extractors over a member of a zip archive: the bytes read from the archive for k rows do not depend on the member's length
+    import zipfile as _zip
+    class _CountingFile(io.BytesIO):
+        def __init__(self, data):
+            io.BytesIO.__init__(self, data)
+            self.nread = 0
+        def read(self, *a):
+            r = io.BytesIO.read(self, *a)
+            self.nread += len(r)
+            return r
+    def _zipped(nrows):
+        buf = io.BytesIO()
+        with _zip.ZipFile(buf, 'w', _zip.ZIP_STORED) as z:
+            z.writestr('t.csv', 'a,b,c\n' + ''.join('%d,x-%d,%d\n' % (i, i % 7, i * 3) for i in range(nrows)))
+        return buf.getvalue()
+    try:
+        z1, z2 = _zipped(20000), _zipped(200000)
+        for k in (1, 5):
+            got = []
+            for data in (z1, z2):
+                cf = _CountingFile(data)
+                v = etl.fromcsv(etl.ZipSource(cf, 't.csv'))
+                out = consume(etl, v, 'islice', k)
+                got.append((out, cf.nread))
+            ctx.case(('fromcsv(ZipSource)', k))
+            ctx.count('kind:extractor-zip')
+            if got[0][0] != got[1][0] or got[1][1] > got[0][1] + 65536 or got[1][1] > 400000:
+                ctx.spec_fail('fromcsv|zip|bytes-depend-on-length', 'fromcsv over a zip member: %d vs %d bytes read from the archive for k=%d' % (got[0][1], got[1][1], k),
+                              {'extractor': 'fromcsv(ZipSource)', 'k': k, 'bytes': (got[0][1], got[1][1])})
+    except Exception as e:   # noqa
+        ctx.corr_fail('zip-extractor', 'could not measure the zip extractor: %r' % e, {})
     # extractors: bytes read for k rows do not depend on the file length
     def files(n):
         rows = [source_row(7, i, False) for i in range(n)]
